@@ -2,53 +2,110 @@ From Coq Require Import String Ascii List ZArith Bool Lia Permutation Sorted.
 From HV Require Import Base.Sexp Base.Str Base.SortSpec Model.Addr Model.DepKeys.
 Import ListNotations.
 
-Lemma NoDup_map_inj {A B} (f : A -> B) (l : list A) :
-  NoDup (map f l) -> forall a b, In a l -> In b l -> f a = f b -> a = b.
+(* ---- the lexicographic order on pairs of strings is a strict total order ---- *)
+Lemma pair_ltb_spec a b :
+  pair_ltb a b = true <-> slt (fst a) (fst b) \/ (fst a = fst b /\ slt (snd a) (snd b)).
 Proof.
-  induction l as [|x r IH]; simpl; intros Hnd a b Ha Hb E; [contradiction|].
-  inversion Hnd as [|? ? Hnin Hnd']; subst.
-  destruct Ha as [<-|Ha], Hb as [<-|Hb]; auto.
-  - exfalso. apply Hnin. rewrite E. now apply in_map.
-  - exfalso. apply Hnin. rewrite <- E. now apply in_map.
+  unfold pair_ltb. rewrite orb_true_iff, andb_true_iff, !ltb_slt, String.eqb_eq. tauto.
+Qed.
+
+Lemma pair_asym a b : pair_ltb a b = true -> pair_ltb b a = false.
+Proof.
+  intros H. destruct (pair_ltb b a) eqn:E; [|reflexivity]. exfalso.
+  apply pair_ltb_spec in H. apply pair_ltb_spec in E.
+  destruct H as [H|[H1 H2]], E as [E|[E1 E2]].
+  - exact (slt_irrefl _ (slt_trans _ _ _ H E)).
+  - rewrite E1 in H. exact (slt_irrefl _ H).
+  - rewrite H1 in E. exact (slt_irrefl _ E).
+  - exact (slt_irrefl _ (slt_trans _ _ _ H2 E2)).
+Qed.
+
+Lemma pair_total a b : a = b \/ pair_ltb a b = true \/ pair_ltb b a = true.
+Proof.
+  destruct a as [a1 a2], b as [b1 b2]. rewrite !pair_ltb_spec; simpl.
+  destruct (slt_total a1 b1) as [H|[H|H]]; auto.
+  subst b1. destruct (slt_total a2 b2) as [H|[H|H]]; auto.
+  subst b2. now left.
+Qed.
+
+Lemma pair_trans a b c : pair_ltb a b = true -> pair_ltb b c = true -> pair_ltb a c = true.
+Proof.
+  rewrite !pair_ltb_spec. intros [H|[H1 H2]] [E|[E1 E2]].
+  - left. eapply slt_trans; eauto.
+  - left. now rewrite <- E1.
+  - left. now rewrite H1.
+  - right. split; [congruence|eapply slt_trans; eauto].
+Qed.
+
+Lemma pair_le_trans a b c : le pair_ltb a b -> le pair_ltb b c -> le pair_ltb a c.
+Proof.
+  unfold le. intros H1 H2. destruct (pair_ltb c a) eqn:E; [|reflexivity]. exfalso.
+  destruct (pair_total b a) as [->|[H|H]]; [congruence|congruence|].
+  pose proof (pair_trans _ _ _ E H). congruence.
+Qed.
+
+(* ---- labels: the comparator factors through (decimal index, value) only up to order on Z;
+        prove the order facts directly ---- *)
+Lemma label_ltb_spec a b :
+  label_ltb a b = true <-> (ld_index a < ld_index b)%Z \/ (ld_index a = ld_index b /\ slt (ld_value a) (ld_value b)).
+Proof.
+  unfold label_ltb. rewrite orb_true_iff, andb_true_iff, Z.ltb_lt, Z.eqb_eq, ltb_slt. tauto.
 Qed.
 
 Lemma label_asym a b : label_ltb a b = true -> label_ltb b a = false.
-Proof. unfold label_ltb. rewrite Z.ltb_lt, Z.ltb_ge. lia. Qed.
+Proof.
+  intros H. destruct (label_ltb b a) eqn:E; [|reflexivity]. exfalso.
+  apply label_ltb_spec in H. apply label_ltb_spec in E.
+  destruct H as [H|[H1 H2]], E as [E|[E1 E2]]; try lia.
+  exact (slt_irrefl _ (slt_trans _ _ _ H2 E2)).
+Qed.
+
+Lemma label_total a b : a = b \/ label_ltb a b = true \/ label_ltb b a = true.
+Proof.
+  rewrite !label_ltb_spec. destruct a as [i v], b as [j w]; simpl.
+  destruct (Z.lt_trichotomy i j) as [H|[H|H]]; auto.
+  subst j. destruct (slt_total v w) as [H|[H|H]]; auto.
+  subst w. now left.
+Qed.
+
+Lemma label_trans a b c : label_ltb a b = true -> label_ltb b c = true -> label_ltb a c = true.
+Proof.
+  rewrite !label_ltb_spec. intros [H|[H1 H2]] [E|[E1 E2]]; try (left; lia).
+  right. split; [lia|eapply slt_trans; eauto].
+Qed.
 
 Lemma label_le_trans a b c : le label_ltb a b -> le label_ltb b c -> le label_ltb a c.
-Proof. unfold le, label_ltb. rewrite !Z.ltb_ge. lia. Qed.
-
-Lemma label_comparable ls : NoDup (map ld_index ls) ->
-  forall a b, In a ls -> In b ls -> a = b \/ label_ltb a b = true \/ label_ltb b a = true.
 Proof.
-  intros Hnd a b Ha Hb. unfold label_ltb. rewrite !Z.ltb_lt.
-  destruct (Z.eq_dec (ld_index a) (ld_index b)) as [E|E]; [left|lia].
-  eapply NoDup_map_inj; eauto.
+  unfold le. intros H1 H2. destruct (label_ltb c a) eqn:E; [|reflexivity]. exfalso.
+  destruct (label_total b a) as [->|[H|H]]; [congruence|congruence|].
+  pose proof (label_trans _ _ _ E H). congruence.
 Qed.
 
-Lemma attr_asym a b : attr_ltb a b = true -> attr_ltb b a = false.
+Lemma sorted_labels_perm ls ls' : Permutation ls ls' -> sorted_labels ls = sorted_labels ls'.
 Proof.
-  unfold attr_ltb, String.ltb. rewrite (String.compare_antisym (ad_name b)).
-  destruct (String.compare (ad_name a) (ad_name b)); simpl; congruence.
+  intros P. unfold sorted_labels.
+  apply (stable_sort_perm_invariant label_ltb label_asym label_le_trans); [|exact P].
+  intros a b _ _. apply label_total.
 Qed.
 
-Lemma attr_le_trans a b c : le attr_ltb a b -> le attr_ltb b c -> le attr_ltb a c.
-Proof.
-  unfold le, attr_ltb. intros H1 H2.
-  destruct (String.ltb (ad_name c) (ad_name a)) eqn:E; [|reflexivity]. exfalso.
-  apply ltb_slt in E.
-  destruct (slt_total (ad_name b) (ad_name a)) as [H|[H|H]].
-  - apply ltb_slt in H. congruence.
-  - rewrite H in H2. apply ltb_slt in E. congruence.
-  - pose proof (slt_trans _ _ _ E H) as H3. apply ltb_slt in H3. congruence.
-Qed.
+(* attributes: what is rendered is a function of the sort key (name, rendered expression) *)
+Definition render_attr (k : string * string) : string :=
+  ("{""name"":" ++ json_string (fst k) ++ ",""expr"":" ++ snd k ++ "}")%string.
 
-Lemma attr_comparable ats : NoDup (map ad_name ats) ->
-  forall a b, In a ats -> In b ats -> a = b \/ attr_ltb a b = true \/ attr_ltb b a = true.
+Lemma attr_json_render a : attr_json a = render_attr (attr_sort_key a).
+Proof. reflexivity. Qed.
+
+Lemma sorted_attrs_render_perm ats ats' : Permutation ats ats' ->
+  map attr_json (sorted_attrs ats) = map attr_json (sorted_attrs ats').
 Proof.
-  intros Hnd a b Ha Hb. unfold attr_ltb. rewrite !ltb_slt.
-  destruct (slt_total (ad_name a) (ad_name b)) as [H|[H|H]]; auto.
-  left. eapply NoDup_map_inj; eauto.
+  intros P. unfold sorted_attrs.
+  rewrite !(map_ext attr_json (fun a => render_attr (attr_sort_key a)) attr_json_render).
+  rewrite <- !(map_map attr_sort_key render_attr).
+  rewrite !(map_stable_sort attr_ltb pair_ltb attr_sort_key (fun a b => eq_refl)).
+  f_equal.
+  apply (stable_sort_perm_invariant pair_ltb pair_asym pair_le_trans).
+  - intros a b _ _. apply pair_total.
+  - now apply Permutation_map.
 Qed.
 
 Lemma perm_nil_iff {A} (l l' : list A) : Permutation l l' -> (l = [] <-> l' = []).
@@ -58,22 +115,32 @@ Proof.
   - now apply Permutation_nil, Permutation_sym.
 Qed.
 
-(* C16: a schema key depends only on the set of key/value pairs, not on their order. *)
+(* C16: a schema key depends only on the multiset of key/value pairs, not on their order -
+   for ALL lists of pairs, including repeated indices / names (after the fix commit). *)
 Lemma schema_key_perm_invariant ls ls' ats ats' :
-  NoDup (map ld_index ls) -> NoDup (map ad_name ats) ->
-  Permutation ls ls' -> Permutation ats ats' ->
-  schema_key ls ats = schema_key ls' ats'.
+  Permutation ls ls' -> Permutation ats ats' -> schema_key ls ats = schema_key ls' ats'.
 Proof.
-  intros Hl Ha Pl Pa. unfold schema_key, sorted_labels, sorted_attrs.
-  rewrite (stable_sort_perm_invariant label_ltb label_asym label_le_trans ls ls' (label_comparable ls Hl) Pl).
-  rewrite (stable_sort_perm_invariant attr_ltb attr_asym attr_le_trans ats ats' (attr_comparable ats Ha) Pa).
+  intros Pl Pa. unfold schema_key.
+  rewrite (sorted_labels_perm ls ls' Pl), (sorted_attrs_render_perm ats ats' Pa).
   pose proof (perm_nil_iff _ _ Pl) as El. pose proof (perm_nil_iff _ _ Pa) as Ea.
   destruct ls, ls'; try (exfalso; (destruct El as [E1 E2]; (specialize (E1 eq_refl) || specialize (E2 eq_refl)); discriminate));
   destruct ats, ats'; try (exfalso; (destruct Ea as [E1 E2]; (specialize (E1 eq_refl) || specialize (E2 eq_refl)); discriminate));
   reflexivity.
 Qed.
 
-(* and the same result whatever (stable or unstable) Go sort is used, as long as keys are distinct *)
-Lemma labels_any_sort ls l1 l2 : NoDup (map ld_index ls) ->
+(* whatever sorting algorithm Go uses (stable or not), the rendered label list is the same:
+   two label records that tie under the comparator are equal *)
+Lemma labels_any_sort ls l1 l2 :
   is_sort label_ltb ls l1 -> is_sort label_ltb ls l2 -> l1 = l2.
-Proof. intros H. apply (any_sort_unique label_ltb ls l1 l2). now apply label_comparable. Qed.
+Proof. apply (any_sort_unique label_ltb ls l1 l2). intros a b _ _. apply label_total. Qed.
+
+(* the pre-fix comparator (index only) is refuted: a concrete pair of listings of one set *)
+Definition label_ltb_prefix (a b : label_dep) : bool := Z.ltb (ld_index a) (ld_index b).
+Definition schema_key_prefix (ls : list label_dep) : string :=
+  ("{""labels"":[" ++ join "," (map label_json (stable_sort label_ltb_prefix ls)) ++ "]}")%string.
+Lemma schema_key_prefix_refuted : exists ls ls', Permutation ls ls' /\ schema_key_prefix ls <> schema_key_prefix ls'.
+Proof.
+  exists [{| ld_index := 0; ld_value := "a" |}; {| ld_index := 0; ld_value := "b" |}],
+         [{| ld_index := 0; ld_value := "b" |}; {| ld_index := 0; ld_value := "a" |}].
+  split; [apply perm_swap|]. vm_compute. discriminate.
+Qed.
